@@ -100,7 +100,7 @@ func (t *tailBuf) String() string {
 
 var theWorker = &worker{}
 
-const workerTimeout = 60 * time.Second
+const workerTimeout = 600 * time.Second // generous: the machine may be heavily loaded; a real hang still ends here
 
 func (w *worker) start() error {
 	cmd := exec.Command(os.Args[0], "-test.run", "^$")
